@@ -527,7 +527,6 @@ pub fn compute_grid_layout<Tree: LayoutGridContainer>(
         // Position hidden child
         if child_style.box_generation_mode() == BoxGenerationMode::None {
             drop(child_style);
-            tree.set_unrounded_layout(child, &Layout::with_order(order));
             tree.perform_child_layout(
                 child,
                 Size::NONE,
@@ -536,6 +535,9 @@ pub fn compute_grid_layout<Tree: LayoutGridContainer>(
                 SizingMode::InherentSize,
                 Line::FALSE,
             );
+            // Set the layout *after* the call: a cache miss inside it zeroes the layout (order 0) but a cache hit
+            // does not, so setting it first made `order` depend on the state of the cache
+            tree.set_unrounded_layout(child, &Layout::with_order(order));
             order += 1;
             return;
         }
